@@ -1229,6 +1229,13 @@ GRIget_image_list(int32 file_id, gr_info_t *gr_ptr)
                     /* Initialize dim info to default */
                     Init_diminfo(&(new_image->img_dim));
 
+                    /* the tag of these oldest images says how they are compressed */
+                    if (new_image->img_tag == DFTAG_CI8 || new_image->img_tag == DFTAG_II8) {
+                        new_image->img_dim.comp_tag = (new_image->img_tag == DFTAG_CI8) ? DFTAG_RLE : DFTAG_IMC;
+                        new_image->use_buf_drvr     = 1;
+                        new_image->use_cr_drvr      = 1;
+                    }
+
                     /* Reassign valid values */
                     if (Hgetelement(file_id, DFTAG_ID8, new_image->img_ref, GRtbuf) != FAIL) {
                         uint8 *p;
